@@ -34,6 +34,8 @@ variable {α : Type} [Field α] [LinearOrder α] [IsStrictOrderedRing α]
 set_option linter.unusedSectionVars false
 set_option linter.unusedSimpArgs false
 
+namespace C08
+
 theorem ring_total' (box : Bound α) (inp : List (Pt α)) : ∃ out, ring box inp = some out := by
   cases inp with
   | nil => exact ⟨[], rfl⟩
@@ -62,10 +64,6 @@ theorem ring_vertices_in_box' (box : Bound α) (hb : BoxOK box) (inp out : List 
     cases h
     intro v hv
     exact (hin v (hsub v hv)).1
-
-theorem ring_vertices_on_input' (box : Bound α) (hb : BoxOK box) (inp out : List (Pt α)) (h : ring box inp = some out) :
-    ∀ v ∈ out, v ∈ inp ∨ ∃ a ∈ inp, ∃ b ∈ inp, OnSeg a b v := by
-  sorry
 
 theorem ring_inside_id' (box : Bound α) (inp : List (Pt α)) (hin : ∀ v ∈ inp, InBox box v) :
     ring box inp = some inp := by
@@ -189,16 +187,16 @@ theorem geom_ind {β : Type} {motive : Geom β → Prop}
     · exact ht g hg
 
 /-- the call returns, and whatever geometry it returns has all its vertices in the box -/
-def Good (box : Bound α) (res : Option (Option (Geom α))) : Prop :=
+def GeoGood (box : Bound α) (res : Option (Option (Geom α))) : Prop :=
   ∃ r, res = some r ∧ ∀ g', r = some g' → ∀ v ∈ gverts g', InBox box v
 
-theorem good_nil (box : Bound α) : Good box (some none) := ⟨none, rfl, by simp⟩
+theorem good_nil (box : Bound α) : GeoGood box (some none) := ⟨none, rfl, by simp⟩
 
 theorem good_some (box : Bound α) (g : Geom α) (h : ∀ v ∈ gverts g, InBox box v) :
-    Good box (some (some g)) := ⟨some g, rfl, by rintro g' ⟨⟩; exact h⟩
+    GeoGood box (some (some g)) := ⟨some g, rfl, by rintro g' ⟨⟩; exact h⟩
 
-theorem good_pre (box : Bound α) (c : Bool) (X : Option (Option (Geom α))) (h : c = true → Good box X) :
-    Good box (if (!c) = true then some none else X) := by
+theorem good_pre (box : Bound α) (c : Bool) (X : Option (Option (Geom α))) (h : c = true → GeoGood box X) :
+    GeoGood box (if (!c) = true then some none else X) := by
   cases c with
   | false => simpa using good_nil box
   | true => simpa using h rfl
@@ -313,7 +311,7 @@ theorem multiLineString_ok (box : Bound α) (hb : BoxOK box) (ls : List (List (P
   simp only [hx]
 
 theorem collect_ok (eb box : Bound α) (gs : List (Geom α))
-    (ih : ∀ g ∈ gs, Good box (geometry eb box g)) :
+    (ih : ∀ g ∈ gs, GeoGood box (geometry eb box g)) :
     ∃ l, geometry.collect eb box gs = some l ∧ ∀ g' ∈ l, ∀ v ∈ gverts g', InBox box v := by
   induction gs with
   | nil => exact ⟨[], by simp [geometry.collect], by simp⟩
@@ -330,7 +328,7 @@ theorem collect_ok (eb box : Bound α) (gs : List (Geom α))
       · exact hg _ rfl
       · exact hlP g' hg'
 
-theorem geometry_good (eb box : Bound α) (hb : BoxOK box) (g : Geom α) : Good box (geometry eb box g) := by
+theorem geometry_good (eb box : Bound α) (hb : BoxOK box) (g : Geom α) : GeoGood box (geometry eb box g) := by
   induction g using geom_ind with
   | h1 p =>
     simp only [geometry]
@@ -504,5 +502,56 @@ theorem ring_witness' : ring (⟨⟨0, 0⟩, ⟨2, 2⟩⟩ : Bound ℚ) [⟨1, 1
     norm_num
   rw [p4]
   simp [rclose, ptEqB]
+
+
+end C08
+
+/-! ### the statements re-exported by `OrbProofs/C08.lean` (proofs live in the namespace `C08`) -/
+
+theorem ring_total' (box : Bound α) (inp : List (Pt α)) : ∃ out, ring box inp = some out :=
+  C08.ring_total' box inp
+
+theorem ring_vertices_in_box' (box : Bound α) (hb : BoxOK box) (inp out : List (Pt α)) (h : ring box inp = some out) :
+    ∀ v ∈ out, InBox box v :=
+  C08.ring_vertices_in_box' box hb inp out h
+
+/- FALSE of the model: see `C08.ring_vertices_on_input_false` in OrbProofs/C08Counter.lean (a triangle
+   containing a box corner: Sutherland–Hodgman emits the corner).  Left `sorry`, not weakened. -/
+theorem ring_vertices_on_input' (box : Bound α) (hb : BoxOK box) (inp out : List (Pt α)) (h : ring box inp = some out) :
+    ∀ v ∈ out, v ∈ inp ∨ ∃ a ∈ inp, ∃ b ∈ inp, OnSeg a b v := by
+  sorry
+
+theorem ring_inside_id' (box : Bound α) (inp : List (Pt α)) (hin : ∀ v ∈ inp, InBox box v) :
+    ring box inp = some inp :=
+  C08.ring_inside_id' box inp hin
+
+theorem ring_disjoint_nil' (box : Bound α) (inp : List (Pt α))
+    (h : (∀ v ∈ inp, v.x < box.lo.x) ∨ (∀ v ∈ inp, v.x > box.hi.x) ∨ (∀ v ∈ inp, v.y < box.lo.y) ∨ (∀ v ∈ inp, v.y > box.hi.y)) :
+    ring box inp = some [] :=
+  C08.ring_disjoint_nil' box inp h
+
+theorem ring_closed' (box : Bound α) (inp out : List (Pt α)) (hc : ClosedRing inp) (h : ring box inp = some out)
+    (hne : out ≠ []) : ClosedRing out :=
+  C08.ring_closed' box inp out hc h hne
+
+theorem polygon_spec' (box : Bound α) (outer : List (Pt α)) (holes : List (List (Pt α))) :
+    ∃ o hs, ring box outer = some o ∧ holes.mapM (ring box) = some hs ∧
+      polygon box (outer :: holes) = some (if o = [] then [] else o :: hs.filter (· ≠ [])) :=
+  C08.polygon_spec' box outer holes
+
+theorem clipBound_is_intersection' (b c : Bound α) (hb : b.isEmpty = false) (hc : c.isEmpty = false) (p : Pt α) :
+    InBox (clipBound b c) p ↔ (InBox b p ∧ InBox c p) :=
+  C08.clipBound_is_intersection' b c hb hc p
+
+theorem geometry_total' (eb box : Bound α) (hb : BoxOK box) (g : Geom α) : ∃ r, geometry eb box g = some r :=
+  C08.geometry_total' eb box hb g
+
+theorem geometry_vertices_in_box' (eb box : Bound α) (hb : BoxOK box) (g r : Geom α)
+    (h : geometry eb box g = some (some r)) : ∀ v ∈ gverts r, InBox box v :=
+  C08.geometry_vertices_in_box' eb box hb g r h
+
+theorem ring_witness' : ring (⟨⟨0, 0⟩, ⟨2, 2⟩⟩ : Bound ℚ) [⟨1, 1⟩, ⟨3, 1⟩, ⟨3, 3⟩, ⟨1, 3⟩, ⟨1, 1⟩] =
+    some [⟨1, 1⟩, ⟨2, 1⟩, ⟨2, 2⟩, ⟨1, 2⟩, ⟨1, 1⟩] :=
+  C08.ring_witness'
 
 end Orb.Clip
